@@ -137,6 +137,23 @@ def windows(run, tier, table):
                     run.violation({"kind": "gamma_window_peak_misplaced", "order": order, "peak": peak, "width": w, "argmax": int(np.argmax(g))})
 
 
+def gamma_attributes(run):
+    """order and peak are documented public attributes: the window follows their current values."""
+    for (o1, p1, o2, p2) in ((4, 0.75, 2, 0.75), (4, 0.75, 6, 0.5), (2, 0.5, 5, 0.9), (3, 0.9, 3, 0.6)):
+        for w in (10, 64, 400):
+            g = filters.GammaWindow(order=o1, peak=p1)
+            g.get_impulse_response(w)
+            g.order, g.peak = o2, p2
+            got = g.get_impulse_response(w)
+            want = filters.GammaWindow(order=o2, peak=p2).get_impulse_response(w)
+            t = np.arange(w - 1, -1, -1, dtype=float)
+            a = (o2 - 1) / (w - p2 * w)
+            closed = a ** o2 * t ** (o2 - 1) * np.exp(-a * t) / math.factorial(o2 - 1)
+            run.evaluations += 1
+            if not np.allclose(got, closed, rtol=1e-9, atol=1e-300) or not np.array_equal(got, want):
+                run.violation({"kind": "gamma_window_ignores_current_attributes", "constructed": [o1, p1], "now": [o2, p2], "width": w})
+
+
 def helpers(run):
     for rate in (8000.0, 16000.0, 44100.0, 1.0):
         for hz in (0.0, 1.0, 123.456, rate / 2, -50.0, 1e5):
@@ -187,6 +204,7 @@ def run(tier, seed):
     run.traces += len(table["cases"])
     random_spectra(run, tier, nprng)
     windows(run, tier, table)
+    gamma_attributes(run)
     helpers(run)
     run.exhaustive = True
     run.not_decided += ["'sums to 1 up to O(1/width)' and gauss_quant's 1e-6 accuracy are statements of real analysis: not in the "
